@@ -89,6 +89,20 @@ class State:
         f = B(f)
         if not z3.is_true(f):
             self.pc.append(f)
+            par = getattr(self, "parent", None)
+            if par is not None:
+                # a scratch state of the SAME program point instance (unrolled element, no bound
+                # variable): the fact also holds in the enclosing state, under this state's extra guards
+                extra = [g for g in self.pc[self.base_len:-1]]
+                par.assume(z3.Implies(z3.And(extra), f) if extra else f)
+
+    def child(self, forward):
+        out = State(dict(self.env), list(self.pc))
+        out.decided = dict(self.decided)
+        if forward:
+            out.parent = self
+            out.base_len = len(self.pc)
+        return out
 
 
 class _NS:
@@ -145,6 +159,7 @@ class Engine:
         self.concrete = False  # differential self-test mode: concrete inputs, loops unrolled, callees inlined
         self.definitional = {}
         self.listings = {}
+        self.ghosts = {}
         self.global_axioms = []
 
     # ------------------------------------------------------------ parameters
@@ -1199,7 +1214,7 @@ class Engine:
         if isinstance(src, TupV):
             outs = []
             for item in src.items:
-                s2 = State(dict(st.env), list(st.pc))
+                s2 = st.child(forward=True)
                 self.assign(g.target, item, s2)
                 keep = [self.truth(self.ev(c_, s2), s2) for c_ in g.ifs]
                 if keep:
